@@ -232,6 +232,38 @@ impl Identity {
     }
 }
 
+/// Verification hooks (compiled only with `--cfg salsa_verif`): text forms for the `ts` trace class.
+#[cfg(salsa_verif)]
+pub(crate) mod verif {
+    use super::Identity;
+    use crate::Id;
+
+    /// `<ingredient>/<hash>/<disambiguator>`
+    pub(crate) fn identity(i: &Identity) -> String {
+        format!(
+            "{}/{}/{}",
+            i.ingredient_index.as_u32(),
+            i.hash,
+            i.disambiguator.0
+        )
+    }
+
+    /// `[<identity>=<ing>:<idx>g<gen>,…]` in the given order
+    pub(crate) fn pairs(items: &[(Identity, Id)]) -> String {
+        let mut s = String::from("[");
+        for (n, (i, id)) in items.iter().enumerate() {
+            if n > 0 {
+                s.push(',');
+            }
+            s.push_str(&identity(i));
+            s.push('=');
+            s.push_str(&crate::verif_trace::SId(i.ingredient_index, *id).to_string());
+        }
+        s.push(']');
+        s
+    }
+}
+
 /// Stores the data that (almost) uniquely identifies a tracked struct.
 ///
 /// This includes the ingredient index of that struct type plus the hash of its untracked
@@ -520,7 +552,56 @@ where
             disambiguator,
         };
 
+        #[cfg(salsa_verif)]
+        let verif_ident = |found: Option<Id>| {
+            if crate::verif_trace::structs_enabled() {
+                let found = match found {
+                    Some(id) => format!(
+                        "found:{}",
+                        crate::verif_trace::SId(self.ingredient_index, id)
+                    ),
+                    None => "fresh".to_string(),
+                };
+                crate::verif_trace::ts(
+                    "ident",
+                    format_args!(
+                        "{} {} {} {} {} cur={} dur={} ca={}",
+                        crate::verif_trace::K(zalsa_local.active_query().unwrap().0),
+                        self.ingredient_index.as_u32(),
+                        identity.hash,
+                        identity.disambiguator.0,
+                        found,
+                        zalsa.current_revision().as_usize(),
+                        current_deps.durability.index(),
+                        current_deps.changed_at.as_usize(),
+                    ),
+                );
+            }
+        };
+        #[cfg(salsa_verif)]
+        let verif_done = |id: Id, how: &str| {
+            if crate::verif_trace::structs_enabled() {
+                crate::verif_trace::ts(
+                    "new",
+                    format_args!(
+                        "{} {} {} {}",
+                        crate::verif_trace::K(zalsa_local.active_query().unwrap().0),
+                        self.ingredient_index.as_u32(),
+                        crate::verif_trace::SId(self.ingredient_index, id),
+                        how,
+                    ),
+                );
+            }
+        };
+        #[cfg(salsa_verif)]
+        let mut verif_found = false;
+
         if let Some(id) = zalsa_local.tracked_struct_id(&identity) {
+            #[cfg(salsa_verif)]
+            {
+                verif_found = true;
+                verif_ident(Some(id));
+            }
             // The struct already exists in the intern map.
             crate::tracing::trace!(
                 "Reuse tracked struct {id:?}",
@@ -530,10 +611,17 @@ where
             // SAFETY: The `id` was present in the interned map, so the value must be initialized.
             let update_result = unsafe { self.update(zalsa, id, &current_deps, fields) };
 
+            #[cfg(salsa_verif)]
+            if matches!(&update_result, Ok(same) if *same == id) {
+                verif_done(id, "reused");
+            }
+
             fields = match update_result {
                 // Overwrite the previous ID if we are reusing the old slot with new fields.
                 Ok(updated_id) if updated_id != id => {
                     zalsa_local.store_tracked_struct_id(identity, updated_id);
+                    #[cfg(salsa_verif)]
+                    verif_done(updated_id, "updated_id");
                     return FromId::from_id(updated_id);
                 }
 
@@ -545,6 +633,11 @@ where
             };
         }
 
+        #[cfg(salsa_verif)]
+        if !verif_found {
+            verif_ident(None);
+        }
+
         // We failed to perform the update, or this is a new tracked struct, so allocate a new entry
         // in the struct map.
         let id = self.allocate(zalsa, zalsa_local, &current_deps, fields);
@@ -553,6 +646,8 @@ where
             key = self.database_key_index(id)
         );
         zalsa_local.store_tracked_struct_id(identity, id);
+        #[cfg(salsa_verif)]
+        verif_done(id, "allocated");
         FromId::from_id(id)
     }
 
@@ -576,6 +671,25 @@ where
             memos: unsafe { MemoTable::new(self.memo_table_types()) },
         };
 
+        #[cfg(salsa_verif)]
+        let mut verif_leaked = 0usize;
+        #[cfg(salsa_verif)]
+        let verif_alloc = |how: &str, id: Id, leaked: usize| {
+            crate::verif_trace::ts(
+                "alloc",
+                format_args!(
+                    "{} {} {} leaked={} cur={} dur={} ca={}",
+                    self.ingredient_index.as_u32(),
+                    how,
+                    crate::verif_trace::SId(self.ingredient_index, id),
+                    leaked,
+                    current_revision.as_usize(),
+                    current_deps.durability.index(),
+                    current_deps.changed_at.as_usize(),
+                ),
+            );
+        };
+
         while let Some(id) = self.free_list.pop() {
             // Increment the ID generation before reusing it, as if we have allocated a new
             // slot in the table.
@@ -587,6 +701,11 @@ where
                     "leaking tracked struct {:?} due to generation overflow",
                     self.database_key_index(id)
                 );
+
+                #[cfg(salsa_verif)]
+                {
+                    verif_leaked += 1;
+                }
 
                 continue;
             };
@@ -601,10 +720,14 @@ where
             // Overwrite the free-list entry. Use `*foo = ` because the entry
             // has been previously initialized and we want to free the old contents.
             *data_raw = value(id);
+            #[cfg(salsa_verif)]
+            verif_alloc("reuse", id, verif_leaked);
             return id;
         }
 
         let (id, _) = zalsa_local.allocate::<Value<C>>(zalsa, self.ingredient_index, value);
+        #[cfg(salsa_verif)]
+        verif_alloc("fresh", id, verif_leaked);
 
         id
     }
@@ -664,10 +787,44 @@ where
         // during the current revision and thus obtained an `&` reference to those fields
         // that is still live.
 
+        #[cfg(salsa_verif)]
+        let verif_id = id;
+        #[cfg(salsa_verif)]
+        let verif_update = |seen: Option<Revision>, outcome: &str| {
+            crate::verif_trace::ts(
+                "update",
+                format_args!(
+                    "{} seen={} cur={} dur={} ca={} {}",
+                    crate::verif_trace::SId(self.ingredient_index, verif_id),
+                    crate::verif_trace::OptRev(seen),
+                    zalsa.current_revision().as_usize(),
+                    current_deps.durability.index(),
+                    current_deps.changed_at.as_usize(),
+                    outcome,
+                ),
+            );
+        };
+        #[cfg(salsa_verif)]
+        let verif_revs = |revisions: &C::Revisions| {
+            let mut s = String::from("[");
+            for i in 0..C::TRACKED_FIELD_INDICES.len() {
+                if i > 0 {
+                    s.push(',');
+                }
+                s.push_str(&revisions[i].load().as_usize().to_string());
+            }
+            s.push(']');
+            s
+        };
+
         let last_updated_at_for_guard;
         {
             // SAFETY: `updated_at` is never exclusively borrowed, so borrowing it is sound
             let last_updated_at = unsafe { (*data_raw).updated_at.load() };
+            #[cfg(salsa_verif)]
+            if last_updated_at.is_none() {
+                verif_update(None, "panic:write_locked");
+            }
             assert!(
                 last_updated_at.is_some(),
                 "two concurrent writers to {id:?}, should not be possible"
@@ -676,6 +833,8 @@ where
 
             // The value is already read-locked, but we can reuse it safely as per above.
             if last_updated_at == Some(zalsa.current_revision()) {
+                #[cfg(salsa_verif)]
+                verif_update(last_updated_at, "current");
                 return Ok(id);
             }
 
@@ -688,6 +847,8 @@ where
                     self.database_key_index(id)
                 );
 
+                #[cfg(salsa_verif)]
+                verif_update(last_updated_at, "leak");
                 return Err(fields);
             }
 
@@ -711,6 +872,11 @@ where
             fn drop(&mut self) {
                 if crate::sync::thread::panicking() {
                     self.0.swap(self.1);
+                    #[cfg(salsa_verif)]
+                    crate::verif_trace::ts(
+                        "update_unwind",
+                        format_args!("restored={}", crate::verif_trace::OptRev(self.1)),
+                    );
                 }
             }
         }
@@ -753,6 +919,8 @@ where
         }
 
         let durability = unsafe { &mut (*data_raw).durability };
+        #[cfg(salsa_verif)]
+        let verif_old_durability = *durability;
         if current_deps.durability < *durability {
             let new_revisions = C::new_revisions(current_deps.changed_at);
             for i in 0..C::TRACKED_FIELD_INDICES.len() {
@@ -767,6 +935,22 @@ where
             swapped_out.is_none(),
             "two concurrent writers to {id:?}, should not be possible"
         );
+
+        #[cfg(salsa_verif)]
+        if crate::verif_trace::structs_enabled() {
+            verif_update(
+                last_updated_at_for_guard,
+                &format!(
+                    "ok {} idchg={} olddur={} revs={} now={}",
+                    crate::verif_trace::SId(self.ingredient_index, id),
+                    identity_fields_changed as u8,
+                    verif_old_durability.index(),
+                    verif_revs(revisions),
+                    // SAFETY: `updated_at` is never exclusively borrowed, so borrowing it is sound
+                    crate::verif_trace::OptRev(unsafe { (*data_raw).updated_at.load() }),
+                ),
+            );
+        }
 
         Ok(id)
     }
@@ -787,9 +971,55 @@ where
     ) -> &C::Fields<'_> {
         // SAFETY: `data` is a valid pointer
         acquire_read_lock(unsafe { &(*data).updated_at }, current_revision);
+        #[cfg(salsa_verif)]
+        crate::verif_trace::ts(
+            "locked",
+            format_args!(
+                "now={}",
+                // SAFETY: `data` is a valid pointer
+                crate::verif_trace::OptRev(unsafe { (*data).updated_at.load() })
+            ),
+        );
         // SAFETY: `data` is valid, the read lock keeps its fields immutable,
         // and `Configuration` guarantees lifetime restoration is valid.
         unsafe { std::mem::transmute::<&C::Fields<'static>, &C::Fields<'_>>(&(*data).fields) }
+    }
+
+    /// `ts read` trace line: emitted by the field accessors just before they take the read lock.
+    #[cfg(salsa_verif)]
+    fn verif_read(
+        &self,
+        data: *const Value<C>,
+        id: Id,
+        current_revision: Revision,
+        field: Option<usize>,
+    ) {
+        if !crate::verif_trace::structs_enabled() {
+            return;
+        }
+        // SAFETY: `data` is a valid pointer; `updated_at` and `revisions` are atomics. The
+        // durability is only read while no writer holds the lock (single-threaded harnesses).
+        let seen = unsafe { (*data).updated_at.load() };
+        let kind = match field {
+            Some(i) if seen.is_some() => format!(
+                "f{} rev={} dur={}",
+                i,
+                unsafe { (&(*data).revisions)[i].load() }.as_usize(),
+                unsafe { (*data).durability }.index()
+            ),
+            Some(i) => format!("f{i}"),
+            None => "u".to_string(),
+        };
+        crate::verif_trace::ts(
+            "read",
+            format_args!(
+                "{} seen={} cur={} {}",
+                crate::verif_trace::SId(self.ingredient_index, id),
+                crate::verif_trace::OptRev(seen),
+                current_revision.as_usize(),
+                kind,
+            ),
+        );
     }
 
     /// Deletes the given entities. This is used after a query `Q` executes and we can compare
@@ -813,6 +1043,25 @@ where
 
         // We want to set `updated_at` to `None`, signalling that other field values
         // cannot be read. The current value should be `Some(R0)` for some older revision.
+        #[cfg(salsa_verif)]
+        if crate::verif_trace::structs_enabled() {
+            // SAFETY: `updated_at` is never exclusively borrowed, so borrowing it is sound
+            let seen = unsafe { (*data).updated_at.load() };
+            crate::verif_trace::ts(
+                "delete",
+                format_args!(
+                    "{} seen={} cur={} {}",
+                    crate::verif_trace::SId(self.ingredient_index, id),
+                    crate::verif_trace::OptRev(seen),
+                    zalsa.current_revision().as_usize(),
+                    match seen {
+                        None => "panic:write_locked",
+                        Some(r) if r == zalsa.current_revision() => "panic:read_locked",
+                        Some(_) => "ok",
+                    },
+                ),
+            );
+        }
         match unsafe { (*data).updated_at.swap(None) } {
             None => {
                 panic!("cannot delete write-locked id `{id:?}`; value leaked across threads");
@@ -832,6 +1081,16 @@ where
 
         // now that all cleanup has occurred, make available for re-use
         self.free_list.push(id);
+        #[cfg(salsa_verif)]
+        crate::verif_trace::ts(
+            "free_push",
+            format_args!(
+                "{} now={}",
+                crate::verif_trace::SId(self.ingredient_index, id),
+                // SAFETY: `updated_at` is never exclusively borrowed, so borrowing it is sound
+                crate::verif_trace::OptRev(unsafe { (*data).updated_at.load() }),
+            ),
+        );
     }
 
     /// Clears the given memo table.
@@ -855,6 +1114,8 @@ where
         }
 
         let mut table_guard = TableDropGuard(table);
+        #[cfg(salsa_verif)]
+        let verif_cleared = std::cell::Cell::new(0usize);
 
         // SAFETY: We have `&mut MemoTable`, so no more references to these memos exist and we are good
         // to drop them.
@@ -864,6 +1125,19 @@ where
                     zalsa.ingredient_index_for_memo(self.ingredient_index, memo_ingredient_index);
 
                 let executor = DatabaseKeyIndex::new(ingredient_index, id);
+
+                #[cfg(salsa_verif)]
+                {
+                    verif_cleared.set(verif_cleared.get() + 1);
+                    crate::verif_trace::ts(
+                        "clear_memo",
+                        format_args!(
+                            "{} {}",
+                            crate::verif_trace::SId(self.ingredient_index, id),
+                            crate::verif_trace::K(executor),
+                        ),
+                    );
+                }
 
                 zalsa.event(&|| Event::new(EventKind::DidDiscard { key: executor }));
 
@@ -875,6 +1149,15 @@ where
 
         // Reset the table after having dropped any memos.
         memo_table.reset();
+        #[cfg(salsa_verif)]
+        crate::verif_trace::ts(
+            "clear_memos",
+            format_args!(
+                "{} {}",
+                crate::verif_trace::SId(self.ingredient_index, id),
+                verif_cleared.get(),
+            ),
+        );
     }
 
     /// Return reference to the field data ignoring dependency tracking.
@@ -886,6 +1169,8 @@ where
     ) -> &'db C::Fields<'db> {
         let id = AsId::as_id(&s);
         let data = Self::data_raw(zalsa.table(), id);
+        #[cfg(salsa_verif)]
+        self.verif_read(data, id, zalsa.current_revision(), None);
         // SAFETY: `data` is a valid pointer acquired from the table.
         unsafe { self.lock_fields(data, zalsa.current_revision()) }
     }
@@ -904,6 +1189,13 @@ where
         let id = AsId::as_id(&s);
         let field_ingredient_index = self.ingredient_index.successor(relative_tracked_index);
         let data = Self::data_raw(zalsa.table(), id);
+        #[cfg(salsa_verif)]
+        self.verif_read(
+            data,
+            id,
+            zalsa.current_revision(),
+            Some(relative_tracked_index),
+        );
 
         // SAFETY: `data` is a valid pointer acquired from the table.
         let fields = unsafe { self.lock_fields(data, zalsa.current_revision()) };
@@ -932,6 +1224,8 @@ where
     ) -> &'db C::Fields<'db> {
         let id = AsId::as_id(&s);
         let data = Self::data_raw(zalsa.table(), id);
+        #[cfg(salsa_verif)]
+        self.verif_read(data, id, zalsa.current_revision(), None);
 
         // Note that we do not need to add a dependency on the tracked struct
         // as IDs that are reused increment their generation, invalidating any
@@ -1205,8 +1499,27 @@ where
     ) -> *const crate::table::memo::MemoTable {
         // Acquiring the read lock here with the current revision to ensure that there
         // is no danger of a race when deleting a tracked struct.
+        #[cfg(salsa_verif)]
+        crate::verif_trace::ts(
+            "mread",
+            format_args!(
+                "seen={} cur={}",
+                // SAFETY: `this` is a valid pointer given the caller obligation
+                crate::verif_trace::OptRev(unsafe { (*this).updated_at.load() }),
+                current_revision.as_usize()
+            ),
+        );
         // SAFETY: `this` is a valid pointer given the caller obligation
         unsafe { acquire_read_lock(&(*this).updated_at, current_revision) };
+        #[cfg(salsa_verif)]
+        crate::verif_trace::ts(
+            "locked",
+            format_args!(
+                "now={}",
+                // SAFETY: `this` is a valid pointer given the caller obligation
+                crate::verif_trace::OptRev(unsafe { (*this).updated_at.load() })
+            ),
+        );
         // SAFETY: `this` is a valid pointer given the caller obligation and we have acquired a read
         // lock, so `values` is not aliased
         unsafe { &raw const (*this).memos }
